@@ -293,8 +293,8 @@ pub fn c19_sweep(ctx: &Ctx, out: &mut RunOut) -> Result<(), Violation> {
             offsets = sel;
         }
     }
-    let n_retry = if thorough() { 24 } else { 4 };
-    let retry_every = (offsets.len() / n_retry).max(1);
+    // (c) is checked after a sample of the failed saves: 4 per document (quick), every 8th armed offset (thorough)
+    let retry_every = if thorough() { 8 } else { (offsets.len() / 4).max(1) };
     let mut fired = 0u64;
     for (i, &off) in offsets.iter().enumerate() {
         let kinds: Vec<FaultKind> = if thorough() {
